@@ -56,9 +56,7 @@ def run(v, tier, rng):
         i = idx[k]
         c = cs[i]
         w = {"source": cases[2 * i]["srcs"][0], "code": code, "why": why.get(code), "object_hex": res["o%d" % i]["calls"][0]["out"]}
-        if code == 3 and c["dup"]:
-            v.finding("C09-duplicate-global", w)
-        elif code == 4 and c["longfile"]:
+        if code == 4 and c["longfile"]:
             v.finding("C09-file-name-truncated", w)
         else:
             v.violation(why.get(code, "?"), w)
